@@ -49,6 +49,19 @@ func init() {
 			for i := shard; i < n; i += nsh {
 				emit(seqScenario(NewRNG(seed, fmt.Sprintf("c12w-%d", i)), "c12w"))
 			}
+			// real region client, well-formed all-success multi responses (cells in the cellblock),
+			// with and without the calls' contexts ending between request and response
+			k := 0
+			for _, setup := range c11Setups {
+				for _, late := range []bool{false, true} {
+					for _, q := range []int{2, 5} {
+						if k%nsh == shard {
+							emit(c12WireCase(setup, late, q))
+						}
+						k++
+					}
+				}
+			}
 		})
 	}
 }
@@ -1277,4 +1290,19 @@ func runBatchProp(prop, tier string, seed uint64, out *Out) {
 			out.n++
 		}
 	}
+}
+
+// c12WireCase feeds one well-formed all-success MultiResponse to the real region client.
+func c12WireCase(setup []c11MC, late bool, q int) string {
+	c := &c11Case{op: "frame", kind: "multi", q: q, calls: setup, f: multiBase(setup), lateCancel: late}
+	line, _ := c11RunWire(c)
+	t := strings.Fields(line)
+	l := "0"
+	if late {
+		l = "1"
+	}
+	if len(t) < 13 || t[1] != "frame" {
+		return "c12r broken " + strings.Join(t, "_")
+	}
+	return fmt.Sprintf("c12r frame %s %s %s", l, t[4], t[12])
 }
